@@ -305,6 +305,39 @@ def getters_unit(u, res):
     before = np.array(p2.unitcell.masses).copy()
     cp.masses = np.array(cp.primitive.masses) * 3.0
     facts.append(("original's unit cell after masses were set on its copy()", np.array_equal(np.array(p2.unitcell.masses), before) and np.array_equal(np.array(mine.masses), m0)))
+    # arrays handed to PhonopyAtoms (constructor and setters) in exactly the form that invites zero-copy adoption - C-contiguous arrays that
+    # already have the target dtype - are the caller's: overwriting them afterwards changes neither the object nor its copy() nor a
+    # Phonopy object built from it
+    given = {"cell": np.array(lat, dtype="double", order="C"), "scaled_positions": np.array(pos, dtype="double", order="C"),
+             "masses": np.array(m0, dtype="double", order="C"), "magnetic_moments": np.array([0.5 + 0.25 * i for i in range(len(symb))], dtype="double", order="C"),
+             "numbers": np.array(ph.unitcell.numbers, dtype="intc", order="C")}
+    for vec in (False, True):
+        if vec:
+            given["magnetic_moments"] = np.array([[0.1 * i, 0.2, 0.3 + i] for i in range(len(symb))], dtype="double", order="C")
+        args = {k: v.copy() for k, v in given.items()}
+        obj = PhonopyAtoms(**args)
+        cpy = obj.copy()
+        pobj = phonopy.Phonopy(obj, supercell_matrix=geometries.SUPERCELLS[SID], primitive_matrix=np.eye(3), log_level=0)
+        ref = {k: np.array(getattr(obj, k)).copy() for k in given}
+        ref_sc = {k: np.array(getattr(pobj.supercell, k)).copy() for k in ("masses", "magnetic_moments", "cell")}
+        for k, a in args.items():
+            a[...] = a + 1 if k != "numbers" else a[::-1].copy()
+        for k in given:
+            same = all(np.array_equal(np.array(getattr(o, k)), ref[k]) for o in (obj, cpy, pobj.unitcell))
+            facts.append(("constructor argument %s%s overwritten by the caller afterwards" % (k, " (vectors)" if vec and k == "magnetic_moments" else ""), same))
+        facts.append(("supercell of a Phonopy object after the caller overwrote the unit cell's arrays%s" % (" (vector moments)" if vec else ""),
+                      all(np.array_equal(np.array(getattr(pobj.supercell, k)), ref_sc[k]) for k in ref_sc)))
+        obj2 = PhonopyAtoms(symbols=symb, cell=lat, scaled_positions=pos)
+        sets = {k: given[k].copy() for k in ("cell", "scaled_positions", "masses", "magnetic_moments")}
+        for k, a in sets.items():
+            setattr(obj2, k, a)
+        cpy2 = obj2.copy()
+        ref2 = {k: np.array(getattr(obj2, k)).copy() for k in sets}
+        for k, a in sets.items():
+            a[...] = a - 2
+        for k in sets:
+            facts.append(("array given to the %s setter overwritten by the caller afterwards%s" % (k, " (vectors)" if vec and k == "magnetic_moments" else ""),
+                          np.array_equal(np.array(getattr(obj2, k)), ref2[k]) and np.array_equal(np.array(getattr(cpy2, k)), ref2[k])))
     ph.generate_displacements(distance=0.03)
     ds = ph.dataset
     ds["first_atoms"][0]["displacement"][0] += 1.0
